@@ -293,26 +293,20 @@ func vfH_deadline() {
 		vfAssert(vfDoWrite(c, wp, BinaryMessage, vfBytes(n), 1) == nil, "write-accepted")
 		marks = append(marks, mark{before, cur, false})
 	}
-	// walk the transport log: the most recent SetWriteDeadline before each Write
-	// carries the deadline in force for that call
+	// walk the transport log: the deadline in force on the transport (the value of
+	// the most recent SetWriteDeadline, none yet = no deadline) at each Write must
+	// be the one the call was entitled to
 	mi := 0
-	var last time.Time
-	haveLast := false
+	var effective time.Time
 	for i, op := range tc.ops {
 		for mi+1 < len(marks) && marks[mi+1].ops <= i {
 			mi++
-			haveLast = false
-		}
-		if len(marks) > 0 && i == marks[mi].ops {
-			haveLast = false
 		}
 		switch op.kind {
 		case vfOpSetWriteDeadline:
-			last = op.t
-			haveLast = true
+			effective = op.t
 		case vfOpWrite:
-			vfAssert(haveLast, "c10-deadline-set-before-write")
-			vfAssert(last == marks[mi].t, "c10-frame-written-under-current-deadline")
+			vfAssert(effective == marks[mi].t, "c10-frame-written-under-current-deadline")
 		}
 	}
 	vfReach("deadline-end")
@@ -499,6 +493,8 @@ func vfH_prepared_seq() {
 	lens := []int{0, 1, 14, 40}
 	if tier >= 1 {
 		lens = []int{0, 1, 14, 40, 125, 126, 4096, 4097, 8200}
+	} else if mt == TextMessage {
+		lens = []int{0, 1, 14, 40, 4100} // larger than the internal 4096-byte buffer
 	}
 	n := vfPick(lens)
 	data := vfBytes(n)
